@@ -19,7 +19,19 @@ impl<V> HashMap<String, V> {
 }
 #[verifier::external_body] #[verifier::reject_recursive_types(T)]
 pub struct HashSet<T> { _t: T }
+impl<V> HashMap<String, V> {
+    #[verifier::external_body]
+    pub fn contains_key(&self, k: &str) -> (r: bool) ensures r == self.map().contains_key(k@) { unimplemented!() }
+    #[verifier::external_body]
+    pub fn is_empty(&self) -> (r: bool) { unimplemented!() }
+    #[verifier::external_body]
+    pub fn len(&self) -> (r: usize) { unimplemented!() }
+}
 impl HashSet<String> {
+    #[verifier::external_body]
+    pub fn is_empty(&self) -> (r: bool) ensures r ==> self.set() == Set::<Seq<char>>::empty() { unimplemented!() }
+    #[verifier::external_body]
+    pub fn len(&self) -> (r: usize) { unimplemented!() }
     pub uninterp spec fn set(&self) -> Set<Seq<char>>;
     #[verifier::external_body]
     pub fn contains(&self, k: &str) -> (r: bool)
@@ -59,6 +71,8 @@ impl<'a, T> IteratorSpecImpl for SetIter<'a, T> {
 impl<T> RwLock<T> {
     pub uninterp spec fn view(&self) -> T;
     #[verifier::external_body]
+    pub fn new(t: T) -> (r: RwLock<T>) ensures r.view() == t { unimplemented!() }
+    #[verifier::external_body]
     pub fn read(&self) -> (r: &T) ensures *r == self.view() { unimplemented!() }
 }
 #[verifier::external_body] #[verifier::reject_recursive_types(T)] pub struct Mutex<T> { _t: T }
@@ -71,9 +85,21 @@ impl<T> RwLock<T> {
 impl UriRsync {
     pub uninterp spec fn authority_spec(&self) -> Seq<char>;
     pub uninterp spec fn module_spec(&self) -> Seq<char>;
+    #[verifier::external_body]
+    pub fn module_name(&self) -> (r: &str) ensures r@ == self.module_spec() { unimplemented!() }
+    #[verifier::external_body]
+    pub fn has_dubious_authority(&self) -> (r: bool) { unimplemented!() }
+}
+impl Clone for UriRsync {
+    #[verifier::external_body]
+    fn clone(&self) -> (r: Self) ensures r == *self { unimplemented!() }
 }
 // rsync::OwnedModule (derefs to Module, whose to_uri() is used).
 #[verifier::external_body] pub struct OwnedModule { _opaque: () }
+impl Clone for OwnedModule {
+    #[verifier::external_body]
+    fn clone(&self) -> (r: Self) ensures r == *self { unimplemented!() }
+}
 impl OwnedModule {
     pub uninterp spec fn authority_spec(&self) -> Seq<char>;
     pub uninterp spec fn module_spec(&self) -> Seq<char>;
@@ -92,7 +118,32 @@ impl std::ops::Deref for PathBuf {
     fn deref(&self) -> (r: &Path) ensures *r == self.p { unimplemented!() }
 }
 #[verifier::external_body] pub struct OsStr { _opaque: () }
+impl Path {
+    // file-system queries: nothing is known about their answers
+    #[verifier::external_body]
+    pub fn is_dir(&self) -> (r: bool) { unimplemented!() }
+    #[verifier::external_body]
+    pub fn is_file(&self) -> (r: bool) { unimplemented!() }
+    #[verifier::external_body]
+    pub fn exists(&self) -> (r: bool) { unimplemented!() }
+    #[verifier::external_body]
+    pub fn join(&self, name: &str) -> (r: PathBuf) { unimplemented!() }
+    #[verifier::external_body]
+    pub fn to_path_buf(&self) -> (r: PathBuf) ensures r.p == *self { unimplemented!() }
+}
+impl PathBuf {
+    #[verifier::external_body]
+    pub fn join(&self, name: &str) -> (r: PathBuf) { unimplemented!() }
+    #[verifier::external_body]
+    pub fn as_path(&self) -> (r: &Path) ensures *r == self.p { unimplemented!() }
+}
+impl Clone for PathBuf {
+    #[verifier::external_body]
+    fn clone(&self) -> (r: PathBuf) ensures r == *self { unimplemented!() }
+}
 impl OsStr {
+    #[verifier::external_body]
+    pub fn to_string_lossy(&self) -> (r: String) { unimplemented!() }
     pub uninterp spec fn utf8(&self) -> Option<Seq<char>>;
     #[verifier::external_body]
     pub fn to_str(&self) -> (r: Option<&str>)
@@ -113,6 +164,10 @@ impl DirEntry {
     pub fn is_dir(&self) -> (r: bool) ensures r == self.is_dir_spec(), !r ==> listing(self.path_spec()).len() == 0 { unimplemented!() }
     #[verifier::external_body]
     pub fn is_file(&self) -> (r: bool) ensures r == self.is_file_spec(), r ==> listing(self.path_spec()).len() == 0 { unimplemented!() }
+    #[verifier::external_body]
+    pub fn into_path(self) -> (r: PathBuf) ensures r.p == self.path_spec() { unimplemented!() }
+    #[verifier::external_body]
+    pub fn len(&self) -> (r: u64) { unimplemented!() }
 }
 // The entries of directory `dir` when this cleanup lists it (only directories have entries).
 pub uninterp spec fn listing(dir: Path) -> Seq<DirEntry>;
@@ -155,3 +210,86 @@ pub fn fatal_remove_all(path: &Path) -> (r: Result<(), Failed>)
 pub fn fatal_remove_file(path: &Path) -> (r: Result<(), Failed>)
     requires !protected(*path),
 { unimplemented!() }
+// The other removal primitives carry the same permission.
+#[verifier::external_body]
+pub fn fatal_remove_dir_all(path: &Path) -> (r: Result<(), Failed>)
+    requires !protected(*path),
+{ unimplemented!() }
+#[verifier::external_body] pub struct IoError { _opaque: () }
+#[verifier::external_body]
+pub fn fs_remove_dir_all(path: &Path) -> (r: Result<(), IoError>)
+    requires !protected(*path),
+{ unimplemented!() }
+#[verifier::external_body]
+pub fn fs_remove_file(path: &Path) -> (r: Result<(), IoError>)
+    requires !protected(*path),
+{ unimplemented!() }
+pub assume_specification<T: core::marker::Destruct> [std::mem::drop] (_0: T);
+// ---- std functions without a vstd specification (ASSUMED: their std definitions).
+// Declared so that a refactoring that starts using one of them is verified, not rejected.
+pub assume_specification<T: Ord + core::marker::Destruct> [std::cmp::min] (a: T, b: T) -> (r: T)
+    ensures <T as vstd::std_specs::cmp::OrdSpec>::obeys_cmp_spec() ==> r == (if vstd::std_specs::cmp::OrdSpec::cmp_spec(&b, &a) == std::cmp::Ordering::Less { b } else { a }),
+;
+pub assume_specification<T: Ord + core::marker::Destruct> [std::cmp::max] (a: T, b: T) -> (r: T)
+    ensures <T as vstd::std_specs::cmp::OrdSpec>::obeys_cmp_spec() ==> r == (if vstd::std_specs::cmp::OrdSpec::cmp_spec(&b, &a) == std::cmp::Ordering::Less { a } else { b }),
+;
+pub assume_specification [std::cmp::Ordering::is_lt] (o: std::cmp::Ordering) -> (r: bool)
+    ensures r == (o == std::cmp::Ordering::Less);
+pub assume_specification [std::cmp::Ordering::is_gt] (o: std::cmp::Ordering) -> (r: bool)
+    ensures r == (o == std::cmp::Ordering::Greater);
+pub assume_specification [std::cmp::Ordering::is_le] (o: std::cmp::Ordering) -> (r: bool)
+    ensures r == (o != std::cmp::Ordering::Greater);
+pub assume_specification [std::cmp::Ordering::is_ge] (o: std::cmp::Ordering) -> (r: bool)
+    ensures r == (o != std::cmp::Ordering::Less);
+pub assume_specification<T: core::marker::Destruct> [bool::then_some] (b: bool, t: T) -> (r: Option<T>)
+    ensures r == (if b { Some(t) } else { None::<T> });
+pub assume_specification<T: core::marker::Destruct> [std::option::Option::<T>::xor] (a: Option<T>, b: Option<T>) -> (r: Option<T>)
+    ensures r == (match (a, b) { (Some(x), None) => Some(x), (None, Some(y)) => Some(y), _ => None::<T> });
+pub assume_specification<'a, T: Copy> [std::option::Option::<&T>::copied] (o: Option<&'a T>) -> (r: Option<T>)
+    ensures r == (match o { Some(x) => Some(*x), None => None::<T> });
+pub assume_specification<T: core::marker::Destruct> [std::option::Option::<T>::or] (a: Option<T>, b: Option<T>) -> (r: Option<T>)
+    ensures r == (if a is Some { a } else { b });
+pub assume_specification<T: core::marker::Destruct, U: core::marker::Destruct> [std::option::Option::<T>::and] (a: Option<T>, b: Option<U>) -> (r: Option<U>)
+    ensures r == (if a is Some { b } else { None::<U> });
+pub assume_specification<T: core::marker::Destruct, U: core::marker::Destruct> [std::option::Option::<T>::zip] (a: Option<T>, b: Option<U>) -> (r: Option<(T, U)>)
+    ensures r == (match (a, b) { (Some(x), Some(y)) => Some((x, y)), _ => None::<(T, U)> });
+pub assume_specification<T, F: FnOnce(T) -> bool + core::marker::Destruct> [std::option::Option::<T>::is_some_and] (o: Option<T>, f: F) -> (r: bool)
+    requires o matches Some(x) ==> f.requires((x,)),
+    ensures match o { Some(x) => f.ensures((x,), r), None => !r };
+pub assume_specification<T, F: FnOnce(T) -> bool + core::marker::Destruct> [std::option::Option::<T>::is_none_or] (o: Option<T>, f: F) -> (r: bool)
+    requires o matches Some(x) ==> f.requires((x,)),
+    ensures match o { Some(x) => f.ensures((x,), r), None => r };
+pub assume_specification<T: core::marker::Destruct, P: FnOnce(&T) -> bool + core::marker::Destruct> [std::option::Option::<T>::filter] (o: Option<T>, p: P) -> (r: Option<T>)
+    requires o matches Some(x) ==> p.requires((&x,)),
+    ensures match o { Some(x) => (r == Some(x) && p.ensures((&x,), true)) || (r is None && p.ensures((&x,), false)), None => r is None };
+pub assume_specification<T: core::marker::Destruct, F: FnOnce() -> Option<T> + core::marker::Destruct> [std::option::Option::<T>::or_else] (o: Option<T>, f: F) -> (r: Option<T>)
+    requires o is None ==> f.requires(()),
+    ensures match o { Some(x) => r == o, None => f.ensures((), r) };
+pub assume_specification<T, U: core::marker::Destruct, F: FnOnce(T) -> U + core::marker::Destruct> [std::option::Option::<T>::map_or] (o: Option<T>, d: U, f: F) -> (r: U)
+    requires o matches Some(x) ==> f.requires((x,)),
+    ensures match o { Some(x) => f.ensures((x,), r), None => r == d };
+pub assume_specification<T, U, D: FnOnce() -> U + core::marker::Destruct, F: FnOnce(T) -> U + core::marker::Destruct> [std::option::Option::<T>::map_or_else] (o: Option<T>, d: D, f: F) -> (r: U)
+    requires o matches Some(x) ==> f.requires((x,)), o is None ==> d.requires(()),
+    ensures match o { Some(x) => f.ensures((x,), r), None => d.ensures((), r) };
+pub assume_specification<T: core::marker::Destruct, E: core::marker::Destruct> [std::result::Result::<T, E>::unwrap_or] (x: Result<T, E>, d: T) -> (r: T)
+    ensures r == (match x { Ok(v) => v, Err(_) => d });
+pub assume_specification<T, E: core::marker::Destruct, F: core::marker::Destruct> [std::result::Result::<T, E>::or] (a: Result<T, E>, b: Result<T, F>) -> (r: Result<T, F>)
+    ensures match a { Ok(v) => r == Ok::<T, F>(v), Err(_) => r == b };
+pub assume_specification<T, E, U, F: FnOnce(T) -> Result<U, E> + core::marker::Destruct> [std::result::Result::<T, E>::and_then] (x: Result<T, E>, f: F) -> (r: Result<U, E>)
+    requires x matches Ok(v) ==> f.requires((v,)),
+    ensures match x { Ok(v) => f.ensures((v,), r), Err(e) => r == Err::<U, E>(e) };
+pub assume_specification<T, E: core::marker::Destruct, F: FnOnce(T) -> bool + core::marker::Destruct> [std::result::Result::<T, E>::is_ok_and] (x: Result<T, E>, f: F) -> (r: bool)
+    requires x matches Ok(v) ==> f.requires((v,)),
+    ensures match x { Ok(v) => f.ensures((v,), r), Err(_) => !r };
+pub assume_specification<T, E, F: FnOnce(E) -> T + core::marker::Destruct> [std::result::Result::<T, E>::unwrap_or_else] (x: Result<T, E>, f: F) -> (r: T)
+    requires x matches Err(e) ==> f.requires((e,)),
+    ensures match x { Ok(v) => r == v, Err(e) => f.ensures((e,), r) };
+pub assume_specification<T> [std::mem::replace] (dest: &mut T, src: T) -> (r: T)
+    ensures r == *old(dest), *final(dest) == src;
+pub assume_specification<T: Default + core::marker::Destruct, E: core::marker::Destruct> [std::result::Result::<T, E>::unwrap_or_default] (x: Result<T, E>) -> (r: T)
+    ensures x matches Ok(v) ==> r == v;
+pub assume_specification<T, E, U: core::marker::Destruct, F: FnOnce(T) -> U + core::marker::Destruct> [std::result::Result::<T, E>::map_or] (x: Result<T, E>, d: U, f: F) -> (r: U)
+    requires x matches Ok(v) ==> f.requires((v,)),
+    ensures match x { Ok(v) => f.ensures((v,), r), Err(_) => r == d };
+pub assume_specification [<std::cmp::Ordering as PartialEq>::eq] (a: &std::cmp::Ordering, b: &std::cmp::Ordering) -> (r: bool)
+    ensures r == (*a == *b);
